@@ -107,6 +107,16 @@ def check_result(tag, net, res, mode, stats):
     tolc = 1e-5
     if untested and delta > 0:
         tolc = max(1e-5, 4.0 * delta * delta / max(min_sight(net), 1.0))
+    # reductions of zenith angles with instrument heights are refined only when they change by more
+    # than 0.1 cc (refine_obsdh_reductions): up to 0.1 cc * sight length may remain in a height
+    P = nm.pmap(net)
+    for cl in net["clusters"]:
+        if cl["k"] != "obs":
+            continue
+        for o in cl["obs"]:
+            if o["t"] == "z-angle" and (o.get("from_dh") or o.get("to_dh")) and delta > 0:
+                sight = nm.hdist(P[o.get("from", cl["from"])], P[o["to"]])
+                tolc = max(tolc, 2.0 * 1.571e-7 * sight)
     for p in net["points"]:
         if p["xy"] == "adj" or p["z"] == "adj":
             a = adj.get(p["id"])
@@ -201,6 +211,6 @@ def nontrivial(c):
 
 
 PARTS = [
-    Part("consistent", strategy=case, oracle=oracle, nontrivial=nontrivial, n={"quick": 600, "thorough": 20000},
+    Part("consistent", strategy=case, oracle=oracle, nontrivial=nontrivial, n={"quick": 2400, "thorough": 20000},
          sample=lambda c: {"mode": c["mode"], "alg": c["alg"], "gkf": nm.gkf_text(c["net"])[:1200]}),
 ]
